@@ -1275,9 +1275,12 @@ dns_msg_rr_get_data(dns_hdr_p hdr, size_t msg_size, size_t offset, uint8_t *name
 	    (msg_size - offset), &name_size))
 		return (EBADMSG);
 
-	dns_rr = (dns_rr_p)((((size_t)hdr) + offset + name_size) - sizeof(uint8_t*));
 	rr_size_tm = (name_size + (sizeof(dns_rr_t) - (sizeof(uint8_t*) +
-	    sizeof(uint8_t))) + ntohs(dns_rr->rdlength));
+	    sizeof(uint8_t))));
+	if ((offset + rr_size_tm) > msg_size)
+		return (EBADMSG); /* Fixed part is out of buf range. */
+	dns_rr = (dns_rr_p)((((size_t)hdr) + offset + name_size) - sizeof(uint8_t*));
+	rr_size_tm += ntohs(dns_rr->rdlength);
 	if ((offset + rr_size_tm) > msg_size)
 		return (EBADMSG); /* Out of buf range. */
 
